@@ -32,9 +32,6 @@ Definition corr_with (fh fl : bool) (k : case) : bool :=
 Definition corr (k : case) : bool :=
   corr_with false false k || corr_with true false k || corr_with false true k || corr_with true true k.
 
-Definition count_close (l : list eev) : nat :=
-  length (filter (fun e => match e with EClose => true | _ => false end) l).
-
 (* the property on what the implementation did (every case ends with a closed connection) *)
 Definition oracle (k : case) : bool :=
   conn_first (o_wire k) && conn_raw (o_wire k) &&
